@@ -416,6 +416,41 @@ def _mode_t_waiters(ctx):
     ctx.cover(("mode-T-waiters", kind, nwait, w.ch.ts_quantum))
 
 
+def _clock_step_observation(ctx):
+    """Observation only (rule 7): the wall clock is stepped while a caller sits in
+    wait_for_bootup(), which takes its deadline from time.time() and recomputes the remaining
+    time on every loop turn.  No statement speaks about clock steps: counted, not judged."""
+    w = W(ctx)
+    nid = w.own
+    step = (10 * SEC, -10 * SEC, 3600 * SEC)[ctx.choice(3, "step")]
+    t_step = (100 + ctx.choice(300, "tstep")) * MS
+    t_hb = t_step + (20 + ctx.choice(200, "thb")) * MS
+    t_boot = t_hb + (20 + ctx.choice(200, "tboot")) * MS          # < 0.85 s: inside the 1 s time-out
+
+    def do_step():
+        ctx.wall_offset += step
+        ctx.fault("wall-clock-step")
+    ctx.after(t_step, do_step)
+    ctx.after(t_hb, lambda: w.raw.send(0x700 + nid, b"\x05"))
+    ctx.after(t_boot, lambda: w.raw.send(0x700 + nid, b"\x00"))
+    t0 = ctx.now
+    _, exc = call(w.r[nid].nmt.wait_for_bootup, 1.0)
+    took = (ctx.now - t0) / SEC
+    ctx.run_for(300 * MS)
+    if exc is not None and not isinstance(exc, NmtError):
+        ctx.violation("C11/nmt-call-raised/%s@%s" % (type(exc).__name__, site(exc)), "wait_for_bootup() with a wall-clock step raised %r" % (exc,))
+    if w.r[nid].nmt.state != "PRE-OPERATIONAL":
+        ctx.violation("C11/master-view", "after heartbeat 05 and a boot-up message the master reports %r" % w.r[nid].nmt.state)
+    how = "forward" if step > 0 else "back"
+    if exc is not None:
+        ctx.observe("wall clock stepped %s during wait_for_bootup(): NmtError although the boot-up message arrived inside the time-out (not judged)" % how)
+    elif took > 1.2:
+        ctx.observe("wall clock stepped %s during wait_for_bootup(): returned long after the time-out (not judged)" % how)
+    else:
+        ctx.observe("wall clock stepped %s during wait_for_bootup(): outcome as without the step" % how)
+    ctx.cover(("clock-step", step > 0, exc is None))
+
+
 def _mode_t_observation(ctx):
     """Mode T, observation only (rule 7): a waiter task in wait_for_bootup() /
     wait_for_heartbeat() and the receive task under the seeded scheduler, frames
@@ -475,8 +510,11 @@ def scenario(ctx):
     b = ctx.choice(30, "b")
     c = ctx.choice(30, "c")
     if mode == 4:
-        if ctx.choice(2, "tkind"):
+        k = ctx.choice(5, "tkind")
+        if k in (1, 2):
             return _mode_t_waiters(ctx)
+        if k == 3:
+            return _clock_step_observation(ctx)
         return _mode_t_observation(ctx)
     w = W(ctx)
     if mode == 0:
